@@ -8,6 +8,7 @@ package main
 import (
 	"fmt"
 	"strings"
+	"sync/atomic"
 
 	"github.com/cosmos/iavl"
 	"github.com/cosmos/iavl/verifcheck/ref"
@@ -15,7 +16,7 @@ import (
 )
 
 type crashStats struct {
-	ops, cuts, images, retries, skipped int
+	ops, cuts, images, retries, skipped int64
 }
 
 // checkImage opens a tree on img under cfg and reports which candidate model it matches ("" = none).
@@ -149,7 +150,7 @@ func crashOracle(s *Spec, probes [][]byte, stats *crashStats, crashOps func(w *W
 			postM := wA.M.Clone()
 			cfgAfter := wA.Cfg
 			wA.Close()
-			stats.ops++
+			atomic.AddInt64(&stats.ops, 1)
 			// candidate states: pre, post, and for a multi-version deletion the crash-free results of deleting fewer versions
 			cands := []*Model{preM, postM}
 			names := []string{"pre", "post"}
@@ -175,19 +176,19 @@ func crashOracle(s *Spec, probes [][]byte, stats *crashStats, crashOps func(w *W
 				m1, _ := checkImage(pre, rc, cands[:1], names[:1], probes)
 				m2, _ := checkImage(full, rc, cands[1:2], names[1:2], probes)
 				if m1 == "" || m2 == "" {
-					stats.skipped++
+					atomic.AddInt64(&stats.skipped, 1)
 					continue
 				}
 				reopenCfgs = append(reopenCfgs, rc)
 			}
 			for c := 0; c <= len(log); c++ {
-				stats.cuts++
+				atomic.AddInt64(&stats.cuts, 1)
 				img := pre.Clone()
 				for _, wr := range log[:c] {
 					img.Apply(wr)
 				}
 				for _, rc := range reopenCfgs {
-					stats.images++
+					atomic.AddInt64(&stats.images, 1)
 					match, ferr := checkImage(img, rc, cands, names, probes)
 					if match == "" {
 						vv := viol("crash", "%s interrupted after %d of %d physical writes; reopened with %s: %s: %s", op, c, len(log), rc, ferr.Oracle, ferr.Detail)
@@ -307,7 +308,7 @@ func classifyPruneImage(img *vstore.Store) string {
 }
 
 func retryOp(img *vstore.Store, cfg Cfg, cfg0 Cfg, op Op, hist []Op, match string, cands []*Model, names []string, postM *Model, probes [][]byte, stats *crashStats) *Violation {
-	stats.retries++
+	atomic.AddInt64(&stats.retries, 1)
 	var m *Model
 	for i, n := range names {
 		if n == match {
@@ -434,6 +435,20 @@ func init() {
 		r := runSpecs(c, c05Specs(c.Tier, stats))
 		r.Extra = map[string]any{"crash_enumeration": map[string]any{"interrupted_operations": stats.ops, "cuts": stats.cuts, "images_reopened": stats.images, "retries": stats.retries, "skipped_crash_independent": stats.skipped},
 			"explanation_crash": "for every explored state and every enabled SaveVersion / DeleteVersionsTo / LoadVersionForOverwriting / first open with the fast index, every prefix of the operation's physical write sequence is materialised as a storage image, reopened (fast index on and off) and compared with the crash-free pre/post states; then the operation is repeated"}
+		if r.Found == nil {
+			n, fails := bigImportDeviations(false, true)
+			r.States += n
+			r.Transitions += n
+			r.Extra["multi_batch_import"] = map[string]any{"leaves": 6000, "cuts_enumerated": n}
+			for _, f := range fails {
+				if id := c.KF.MatchRaw(c.ID, f); id != "" {
+					c.KF.NoteRaw(id, f)
+					continue
+				}
+				rawViolation(c, r, f, nil)
+				break
+			}
+		}
 		r.Assumptions = []string{
 			"fault model of the statement: each underlying batch write is atomic and ordered; cuts are placed between consecutive physical writes (cut 0 = nothing written, cut m = everything written)",
 			"for DeleteVersionsTo(n) spanning several versions an image equal to the crash-free result of DeleteVersionsTo(j), first <= j < n, is accepted as well (the statement's second sentence protects only the versions the operation was not deleting)",
